@@ -1,0 +1,10 @@
+//go:build !verif
+
+package kafka
+
+// No-op twins of the Writer hook helpers (see verif_writer_on.go); only referenced from dead
+// `if verifOn { ... }` branches when the `verif` build tag is off.
+
+func verifErrCode(err error) string { return "" }
+
+func verifWriteErrors(werr WriteErrors) string { return "" }
